@@ -82,13 +82,13 @@ func runC06Case(r *Run, bases *baseStates, cc *c06Case) {
 	}
 	for _, id := range cc.Schedule {
 		if id < n {
-			sched.Step(id, 2*time.Second)
+			sched.Step(id, 15*time.Second)
 		}
 	}
 	for alive := true; alive; {
 		alive = false
 		for id := 0; id < n; id++ {
-			if _, ok := sched.Step(id, 2*time.Second); ok {
+			if _, ok := sched.Step(id, 15*time.Second); ok {
 				alive = true
 			}
 		}
@@ -474,12 +474,12 @@ func runConcurrentCreate(r *Run, rng *Rng, schedule []int) {
 		}()
 	}
 	for _, id := range schedule {
-		sched.Step(id, time.Second)
+		sched.Step(id, 15*time.Second)
 	}
 	for alive := true; alive; {
 		alive = false
 		for id := 0; id < 2; id++ {
-			if _, ok := sched.Step(id, time.Second); ok {
+			if _, ok := sched.Step(id, 15*time.Second); ok {
 				alive = true
 			}
 		}
